@@ -24,8 +24,9 @@ import (
 
 // ival is the stored value: Key == nil means "not indexed"
 type ival struct {
-	Key     []byte `json:"key"`     // raw bytes (base64 in the stored JSON), may contain 0xFF
-	Indexed bool   `json:"indexed"` // false: the key function returns nil
+	// (members that are empty are absent from the stored document: stored values differ in shape)
+	Key     []byte `json:"key,omitempty"`     // raw bytes (base64 in the stored JSON), may contain 0xFF
+	Indexed bool   `json:"indexed,omitempty"` // false: the key function returns nil
 	Other   int    `json:"other"`
 }
 
@@ -314,6 +315,18 @@ func RunC13(c *core.Ctx) {
 					continue
 				}
 				recs = append(recs, rec{"kind": "query", "entries": ents, "q": q.rec(), "got": got, "dbg": fmt.Sprintf("history %d step %d", h, step)})
+			}
+		}
+		// the indexes rebuilt from the stored values answer every query as before
+		if err := w.qs.RebuildIndexes(); err != nil {
+			c.Violate(core.Violation{Signature: map[string]string{"engine": "c13", "kind": "rebuild-error"}, Text: fmt.Sprintf("RebuildIndexes failed: %v", err), Replay: fmt.Sprint(h)})
+		}
+		w.qs.Flush()
+		ents := w.entries()
+		for k := 0; k < c.Pick(14, 40); k++ {
+			q := randQuery(rng)
+			if got, err := w.query(q); err == nil {
+				recs = append(recs, rec{"kind": "query", "entries": ents, "q": q.rec(), "got": got, "dbg": fmt.Sprintf("history %d after RebuildIndexes", h)})
 			}
 		}
 		w.close()
